@@ -63,3 +63,7 @@ wire!(wire_square72, Square72, 368, 4, 36, 94);
 wire!(wire_square104, Square104, 816, 6, 56, 138);
 wire!(wire_square132, Square132, 1304, 8, 62, 165);
 wire!(wire_square144, Square144, 1558, 10, 62, 158);
+wire!(wire_square80, Square80, 456, 4, 48, 116);
+wire!(wire_square88, Square88, 576, 4, 56, 146);
+wire!(wire_square96, Square96, 696, 4, 68, 176);
+wire!(wire_square120, Square120, 1050, 6, 68, 177);
